@@ -223,6 +223,15 @@ func (t *Transformer) TranslateType() (reflect.Type, error) {
 
 		t.mState[manglerNum] = layerState
 	}
+	// reflect.StructOf panics on duplicate field names (e.g. an embedded
+	// struct's field flattened next to a field of the same name).
+	seenNames := make(map[string]struct{}, len(layerFields))
+	for _, lf := range layerFields {
+		if _, dup := seenNames[lf.Name]; dup {
+			return nil, fmt.Errorf("duplicate field name %q after mangling", lf.Name)
+		}
+		seenNames[lf.Name] = struct{}{}
+	}
 	return reflect.StructOf(layerFields), nil
 }
 
